@@ -250,8 +250,9 @@ type world struct {
 	sdFiredAt       int      // position in im.Points of the first failed operation of the terminal shutdown (-1: none)
 	genDirs         []string // copies on which later generations of a recovered node run
 	// wave 7: follower of the log this node leads (follower_test.go)
-	flw       *followerModel // nil: the log has the local consumer group only
-	gcWindows []int          // positions in im.Points of housekeeping ticks at which the follower's group was ahead of the local group
+	flw          *followerModel // nil: the log has the local consumer group only
+	localStopped bool           // the removal task stopped the local replicator of a log which stays (its consumer group is closed)
+	gcWindows    []int          // positions in im.Points of housekeeping ticks at which the follower's group was ahead of the local group
 }
 
 // appendSpec holds the draws of one append (drawn before the operation which performs it runs).
@@ -1379,7 +1380,7 @@ func runHistory(t *rapid.T, thorough bool, group, profile string) {
 		for _, lg := range w.logs {
 			if lg != nil {
 				lg.part.Stop()
-				anyRemoved = anyRemoved || lg.removedSeq >= 0
+				anyRemoved = anyRemoved || lg.removedSeq >= 0 || w.localStopped
 			}
 		}
 		if w.n != nil {
@@ -1481,6 +1482,16 @@ func runHistory(t *rapid.T, thorough bool, group, profile string) {
 			from := len(w.im.Points)
 			if !lg.part.IsExpire() {
 				w.noteLogTick(lg, from)
+				if replica.VerifReplicator(lg.part, nodeID) == nil {
+					// the partition stays (the follower's group still has data) but the task has stopped the caught-up
+					// local replicator and closed its consumer group; the family keeps that replicator's acknowledge
+					// callback: the next data flush of the family (also the final one of a shutdown) stores into the
+					// unmapped meta page of the closed group and the process dies (reported as an observation; the
+					// history ends here, the live node is closed behind a fault guard)
+					w.localStopped = true
+					w.classes["removal-task-stops-local-replicator-of-a-log-which-stays"]++
+					w.logf("  (log of leader %d stays - the follower's group has data - its caught-up local replicator is stopped and its consumer group closed)", lg.leader)
+				}
 			} else {
 				lg.part.Stop()
 				_ = lg.part.Close()
@@ -1515,7 +1526,7 @@ func runHistory(t *rapid.T, thorough bool, group, profile string) {
 	// the crash points inside the shutdown and what the stopped process leaves are further images
 	w.sdFiredAt = -1
 	shutdownPct, shutdownFaultPct, _ := w.shutdownOdds()
-	if !anyRemoved && rapid.IntRange(0, 99).Draw(t, "gracefulShutdown") < shutdownPct {
+	if !anyRemoved && !w.localStopped && rapid.IntRange(0, 99).Draw(t, "gracefulShutdown") < shutdownPct {
 		plan := drawShutdownPlan(t, shutdownFaultPct, false)
 		w.beforeShutdown(t)
 		liveClosed = true
